@@ -1,0 +1,84 @@
+//go:build verif
+
+// Contracts for the deductive verifier in /verif (govc). Only compiled with -tags verif.
+
+package state
+
+// ---- C04: what is persisted, and when ------------------------------------------------------------
+//
+// A restart resumes from the last checkpoint. The pieces under contract: (1) the "modified" mark is only
+// cleared after the backend accepted a checkpoint (or on a fresh load), and Unlock returns normally
+// only with the mark cleared when there was something to save; (2) every store to a persisted field of
+// a task or change, and to the identifier counters, happens while the state is marked modified, so the
+// Unlock that ends the critical section checkpoints it; (3) the runner only starts tasks that are not
+// finished (a task recorded as ready is never run again), and a task found in Doing/Undoing is started
+// with the same handler as one in Do/Undo.
+
+// (1)
+//@ fieldguard [C04] State.modified: val || infunc("ReadState") || infunc("Unlock")
+
+//@ func (*State).checkpointData
+//@   trusted
+//@   assigns nothing
+
+//@ func (state.Backend).Checkpoint
+//@   trusted
+//@   assigns nothing
+
+//@ func (*State).unlock
+//@   trusted
+//@   assigns State.muC
+
+//@ func (*State).Unlock
+//@   props C04
+//@   guard store State.modified: [after-checkpoint] val || called("Checkpoint")
+//@   guard store State.modified: [checkpoint-succeeded] val || err == nil
+//@   ensures [saved] old(s.modified && s.backend != nil) ==> !s.modified && called("Checkpoint")
+//@   ensures [untouched] !old(s.modified && s.backend != nil) ==> s.modified == old(s.modified)
+
+// (2) persisted fields are written only inside a critical section that is marked modified
+//@ fieldguard [C04] Task.status: obj.state == nil || obj.state.modified || infunc("UnmarshalJSON")
+//@ fieldguard [C04] Task.waitedStatus: obj.state == nil || obj.state.modified || infunc("UnmarshalJSON")
+//@ fieldguard [C04] Task.waitTasks: obj.state == nil || obj.state.modified || infunc("UnmarshalJSON")
+//@ fieldguard [C04] Task.haltTasks: obj.state == nil || obj.state.modified || infunc("UnmarshalJSON")
+//@ fieldguard [C04] Task.lanes: obj.state == nil || obj.state.modified || infunc("UnmarshalJSON")
+//@ fieldguard [C04] Task.change: obj.state == nil || obj.state.modified || infunc("UnmarshalJSON")
+//@ fieldguard [C04] Task.atTime: obj.state == nil || obj.state.modified || infunc("UnmarshalJSON")
+//@ fieldguard [C04] Task.clean: obj.state == nil || obj.state.modified || infunc("UnmarshalJSON")
+//@ fieldguard [C04] Task.log: obj.state == nil || obj.state.modified || infunc("UnmarshalJSON")
+//@ fieldguard [C04] Task.doingTime: obj.state == nil || obj.state.modified || infunc("UnmarshalJSON")
+//@ fieldguard [C04] Task.undoingTime: obj.state == nil || obj.state.modified || infunc("UnmarshalJSON")
+//@ fieldguard [C04] Change.status: obj.state == nil || obj.state.modified || infunc("UnmarshalJSON")
+//@ fieldguard [C04] Change.taskIDs: obj.state == nil || obj.state.modified || infunc("UnmarshalJSON")
+//@ fieldguard [C04] Change.clean: obj.state == nil || obj.state.modified || infunc("UnmarshalJSON")
+//@ fieldguard [C04] State.lastTaskId: obj.modified || infunc("UnmarshalJSON")
+//@ fieldguard [C04] State.lastChangeId: obj.modified || infunc("UnmarshalJSON")
+//@ fieldguard [C04] State.lastLaneId: obj.modified || infunc("UnmarshalJSON")
+//@ fieldguard [C04] State.lastNoticeId: obj.modified || infunc("UnmarshalJSON")
+
+// helpers that rely on their callers having marked the state modified; tasks and changes handed to
+// each other belong to the same state
+//@ func (*Task).addLog
+//@   props C04
+//@   requires [marked] t.state.modified
+
+//@ func (*Change).taskCleanChanged
+//@   props C04
+//@   requires [marked] c.state.modified
+
+//@ func (*Task).SetClean
+//@   props C04
+//@   requires t.state.changes[t.change] == nil || t.state.changes[t.change].state == t.state
+
+//@ func (*Task).WaitFor
+//@   props C04
+//@   requires another != nil && another.state == t.state
+
+//@ func (*Change).AddTask
+//@   props C04
+//@   requires t != nil && t.state == c.state
+
+//@ func (*Task).Logf
+//@   props C04
+//@ func (*Task).Errorf
+//@   props C04
